@@ -471,7 +471,7 @@ structure BEnv (T : Type) where
   sym : Rat
   /-- `true`: `clearLinkedCache` as coded since fix b30c1b1 (transitive sweep); `false`: before it (direct dependents) -/
   transitive : Bool
-  /-- does `setLink` end with `clearLinkedCache()`? (`false`: the code as it is) -/
+  /-- does `setLink` end with `clearLinkedCache()`? (`true`: the code since fix a226651; `false`: before it) -/
   linkClears : Bool
 
 structure BState (T : Type) where
@@ -611,6 +611,10 @@ inductive BOp (T : Type) where
   | qDerivedArea
   | qDerivedVolume
 
+def BOp.isSetLink : BOp T → Bool
+  | .setLink _ _ _ _ => true
+  | _ => false
+
 def bstep (e : BEnv T) (b : BState T) : BOp T → BState T × Option (List Rat)
   | .setTemp i t =>
     match b.comps[i]? with
@@ -650,7 +654,8 @@ def bstep (e : BEnv T) (b : BState T) : BOp T → BState T × Option (List Rat)
         | some c' => ((b.modify i (fun c => { c with dims := c'.dims })).clearLinkedCache e i, some [])
   | .setLink i key j k =>
     -- `self.p[key] = _DimensionLink((otherComp, otherCompKey))`: unconditional, whatever the old value was (a number
-    -- or a link, equal to the target's current dimension or not); `e.linkClears`: followed by `clearLinkedCache()`
+    -- or a link, equal to the target's current dimension or not); `e.linkClears` (the code since fix a226651):
+    -- followed by `clearLinkedCache()`
     match b.comps[i]? with
     | none => (b, none)
     | some _ =>
